@@ -901,14 +901,6 @@ class C13(Check):
     def fold(s):
         return ''.join(chr(ord(c) + 32) if 'A' <= c <= 'Z' else c for c in s)
 
-    @staticmethod
-    def shadow_region(name, value):
-        """C13-shadow-lengths-run-together: box-shadow / text-shadow with a number written `0.x`: the shadow macro
-        separates its lengths by optional white space, so `0.7pc` also reads as the two lengths `0` `.7pc`"""
-        if name in ('box-shadow', 'text-shadow') and re.search(r'(?<![0-9.])0+\.[0-9]', value):
-            return 'C13-shadow-lengths-run-together'
-        return None
-
     FUNCTION_VALUES = [('color', 'rgb(1, 2, 3)'), ('background-color', 'rgb(10%, 20%, 30%)'),
                        ('clip', 'rect(1px, 2px, 3px, 4px)'), ('content', 'counter(x, disc)'),
                        ('content', 'attr(title) "x"'), ('color', 'rgba(1, 2, 3, 0.5)'), ('color', 'hsl(1, 2%, 3%)'),
@@ -960,8 +952,7 @@ class C13(Check):
                         if v2 != [o[3] for o in obs]:
                             ctx.violate('the verdict does not depend on the serializer preferences in effect when '
                                         '`valid` is read', {'css': css, 'preferences': label},
-                                        {'default': [o[3] for o in obs], label: v2},
-                                        known=self.shadow_region(name, sp))
+                                        {'default': [o[3] for o in obs], label: v2})
                             break
                 elif obs != base[1]:
                     known = None
